@@ -307,6 +307,7 @@ type eRun struct {
 	logbuf bytes.Buffer
 	addrOf []string // client local address per scenario connection
 	notes  []string
+	writes map[string][][2]time.Time // per client address: (time before, time after) each write
 }
 
 func (r *eRun) notify() {
@@ -325,7 +326,7 @@ func (w *worldE) Run(t *testing.T, profile string, sc any, cfg simrt.Config) *Ou
 	s := sc.(*EScenario)
 	cfg.FineYields = s.Fine
 	out := &Outcome{}
-	r := &eRun{s: s, out: out, sinks: map[string]*eSink{}}
+	r := &eRun{s: s, out: out, sinks: map[string]*eSink{}, writes: map[string][][2]time.Time{}}
 	logger.SetOutput(&r.logbuf)
 	logger.SetLogLevel(logger.DebugLevel) // the listener reports why it flushes at debug level (rule renewal-flush-cadence)
 	cfg.MaxSimTime = 10 * time.Hour
@@ -381,10 +382,12 @@ func (r *eRun) drive() {
 						r.out.fault("pause_around_flush_interval", 1)
 					}
 				}
+				w0 := time.Now()
 				if _, werr := c.Write([]byte(ec.Stream[off : off+f.Len])); werr != nil {
 					r.out.Harness = "client write: " + werr.Error()
 					return
 				}
+				r.writes[r.addrOf[ci]] = append(r.writes[r.addrOf[ci]], [2]time.Time{w0, time.Now()})
 				off += f.Len
 			}
 			if len(ec.Frags) > 1 {
@@ -517,6 +520,28 @@ func (r *eRun) evaluate(out *Outcome) {
 			break
 		}
 		lastForced[client] = h
+	}
+	// a flush for idleness follows a read that timed out, and a read can only time out after it has waited a flush interval
+	// or longer (the deadline is renewed at the start of every read that has less than that left): bytes written less than
+	// a flush interval before an idle flush do not exist. (An idle flush after a shorter silence cuts a multi-line record
+	// whose lines are separated by no flush pause.) Writes at the very instants t and t-interval are ties and allowed.
+IDLE:
+	for _, ln := range strings.Split(out.Log, "\n") {
+		if logField(ln, "msg") != "flush input" {
+			continue
+		}
+		ts, client := logField(ln, "time"), logField(ln, "client")
+		t, err := time.Parse(time.RFC3339Nano, ts)
+		if err != nil || client == "" {
+			continue
+		}
+		out.Obligations++
+		for _, w := range r.writes[client] {
+			if w[0].After(t.Add(-ms(s.FlushMs))) && w[1].Before(t) {
+				out.violate(prop, "idle-flush-without-pause", "idle-flush-without-pause", "connection %s: flushed for idleness only %v after the client wrote (flush interval %dms): a read timed out before it had waited one flush interval", client, t.Sub(w[1]), s.FlushMs)
+				break IDLE
+			}
+		}
 	}
 	for ci, ec := range s.Conns {
 		sk := r.sinks[r.addrOf[ci]]
